@@ -1435,7 +1435,7 @@ rrul_fill_wly(echs_instant_t *restrict tgt, size_t nti, rrulsp_t rr)
 
 	/* fill up the array the hard way */
 	for (res = 0UL, maxd = echs_scale_ndim(srcsca, y, m);
-	     res < nti && y < 2100U;
+	     res < nti && y < 2100U && maxd;
 	     ({
 		     d += rr->inter * 7U;
 		     while (d > maxd) {
@@ -1445,6 +1445,10 @@ rrul_fill_wly(echs_instant_t *restrict tgt, size_t nti, rrulsp_t rr)
 				     m = 1U;
 			     }
 			     maxd = echs_scale_ndim(srcsca, y, m);
+			     if (UNLIKELY(!maxd)) {
+				     /* beyond the scale's tables */
+				     goto fin;
+			     }
 		     }
 	     })) {
 		uint_fast32_t incs = wd_incs;
@@ -1464,6 +1468,10 @@ rrul_fill_wly(echs_instant_t *restrict tgt, size_t nti, rrulsp_t rr)
 				}
 				this_maxd =
 					echs_scale_ndim(srcsca, this_y, this_m);
+				if (UNLIKELY(!this_maxd)) {
+					/* beyond the scale's tables */
+					goto fin;
+				}
 			}
 
 			for (ENUM_INIT(e, iS, iM, iH);
@@ -1595,7 +1603,7 @@ rrul_fill_dly(echs_instant_t *restrict tgt, size_t nti, rrulsp_t rr)
 	/* fill up the array the hard way */
 	for (res = 0UL, w = echs_scale_wday(srcsca, y, m, d),
 		     maxd = echs_scale_ndim(srcsca, y, m);
-	     res < nti && y < 2100U;
+	     res < nti && y < 2100U && maxd;
 	     ({
 		     d += rr->inter;
 		     w += rr->inter;
@@ -1609,6 +1617,10 @@ rrul_fill_dly(echs_instant_t *restrict tgt, size_t nti, rrulsp_t rr)
 				     m = 1U;
 			     }
 			     maxd = echs_scale_ndim(srcsca, y, m);
+			     if (UNLIKELY(!maxd)) {
+				     /* beyond the scale's tables */
+				     goto fin;
+			     }
 		     }
 	     })) {
 		/* we're subtractive, so check if the current ymd matches
